@@ -8,7 +8,8 @@ TECHNIQUE = "model-based testing: Hypothesis-generated operation sequences inter
 RULE = ("operation sequences (<=200 ops, offsets 0..300) over two Spans objects (add, remove, +, -, &, +=, -=, in, len, iter, bool, copy) and "
         "one DataSpans (add, remove, get, pop, len, get_chunks, get_spans, copy); after every step the object is compared with a Python "
         "set / dict model. Non-trivial = sequence with >=1 remove/pop that splits a span or an add that merges >=2 spans or overwrites "
-        "held bytes; distinct by op list.")
+        "held bytes; distinct by op list."
+        ' The operation alphabet includes aliased operands (s -= s, s += s, s & s, s - s).')
 LEVEL_TEXT = "Random operation histories compared step by step against an obviously-correct reference (set of ints, dict offset->byte)."
 ASSUMPTIONS = ["lengths are >= 1 (the classes assert length > 0)"]
 REQUIRED_CLASSES = ["aliased-operand", "split", "merge", "overwrite", "exact-fill"]
